@@ -435,6 +435,100 @@ def stage_sketch(ctx):
     ctx.samples.append({"kind": "estimator stream through the facade", "events": head})
 
 
+def generic_trace_check(ctx, module, name, trace, constants):
+    cfg = os.path.join(ctx.wd, name + ".cfg")
+    V.write_cfg(cfg, constants=constants, postcondition="Consumed")
+    rc, outp, wall = V.run_tlc(ctx.wd, module, cfg, workers=1, timeout=900, out=name + ".out",
+                               depth_first=True, xmx="6g", env_extra={"TRACE": trace})
+    txt = open(outp, errors="replace").read()
+    m = re.search(r'<<"STATS", "(.*)">>', txt)
+    if rc == -9 or not m or "No error has been found" not in txt:
+        e = re.search(r"Error: (.*)", txt)
+        raise ToolError("trace validation failed (%s): %s" % (outp, e.group(1) if e else "no STATS"))
+    st = json.loads(m.group(1).replace('\\"', '"'))
+    viol = [(x.group(1), int(x.group(2)), int(x.group(3)))
+            for x in re.finditer(r'<<"VIOL", "(C\d+)", (-?\d+), (\d+)>>', txt)]
+    drift = [(int(x.group(1)), int(x.group(2))) for x in re.finditer(r'<<"DRIFT", (-?\d+), (\d+)>>', txt)]
+    log("[trace] %-24s %6d events %4d behaviours  viol=%d drift=%d  %.1fs" % (
+        name, st["events"], st["behaviours"], len(viol), len(drift), wall))
+    return st, viol, drift
+
+
+def stage_deque(ctx):
+    """The intrusive list on its own: Deque.tla (well-formedness, refinement of a sequence), one
+    behaviour per edge through the facade with a structural walk of the real heap, random ops."""
+    quick = ctx.tier == "quick"
+    ma, ml = (5, 4) if quick else (7, 5)
+    r = V.model_check(ctx.wd, "dq_mc", "MC_Deque.tla", {"MaxAlloc": ma, "MaxLive": ml, "Emit": False, "MaxDepth": 0},
+                      ["WellFormed", "Refines"], workers=8, timeout=1200)
+    ctx.mc.append({k: r[k] for k in ("name", "distinct", "generated", "ok", "wall_s", "timeout")})
+    ctx.states += r["distinct"]
+    ctx.transitions += r["generated"]
+    if not r["ok"] and not r["timeout"]:
+        ctx.model_failures.append(("dq_mc", r["violated"] or r["error"], r["out"]))
+    name = "dq_r"
+    cfg = os.path.join(ctx.wd, name + ".cfg")
+    V.write_cfg(cfg, constants={"MaxAlloc": 5 if quick else 6, "MaxLive": 4, "Emit": True, "MaxDepth": 0}, view="View")
+    rc, outp, wall = V.run_tlc(ctx.wd, "MC_Deque.tla", cfg, workers=1, timeout=900, out=name + ".out")
+    rr = V.parse_mc(outp)
+    if not rr["ok"]:
+        raise ToolError("deque emission failed: %s" % (rr["violated"] or rr["error"]))
+    beh = os.path.join(ctx.wd, name + ".beh.ndjson")
+    n = parse_edges(outp, beh)
+    os.remove(outp)
+    trace = os.path.join(ctx.wd, name + ".trace.ndjson")
+    hr = V.harness(["deque", "replay", beh, trace])
+    if hr.returncode != 0:
+        # a crash of the list code itself
+        with open(trace, "a") as f:
+            f.write(json.dumps({"ev": "Crash", "rc": hr.returncode}) + "\n")
+        summ = {"events": 0, "mismatches": [{"crash": hr.returncode}]}
+    else:
+        summ = json.loads(hr.stdout.strip().splitlines()[-1])
+    log("[replay] %-24s %6d behaviours (one per edge of %d states) %7d ops  mismatching=%d" % (
+        name, n, rr["distinct"], summ["events"], len(summ["mismatches"])))
+    ctx.replayed += n
+    ctx.replay_events += summ["events"]
+    ctx.traces_ok += n - len(summ["mismatches"])
+    if summ["mismatches"]:
+        st, viol, drift = generic_trace_check(ctx, "TraceDeque.tla", name + "_bad", trace, {"MaxAlloc": 8})
+        deque_verdict(ctx, name, trace, viol, drift)
+    name = "dq_v"
+    trace = os.path.join(ctx.wd, name + ".trace.ndjson")
+    count, length = (60, 80) if quick else (600, 300)
+    hr = V.harness(["deque", "random", str(ctx.seed), str(count), str(length), "40", trace])
+    if hr.returncode != 0:
+        with open(trace, "a") as f:
+            f.write(json.dumps({"ev": "Crash", "rc": hr.returncode}) + "\n")
+    st, viol, drift = generic_trace_check(ctx, "TraceDeque.tla", name, trace, {"MaxAlloc": 40})
+    ctx.events += st["events"]
+    ctx.nontrivial += st["nt"]
+    ctx.conform += st["conform"]
+    ctx.traces_ok += st["behaviours"] - len({b for (_, b, _) in viol})
+    deque_verdict(ctx, name, trace, viol, drift)
+
+
+def deque_verdict(ctx, name, trace, viol, drift):
+    lines = None
+    seen = set()
+    for (p, bid, line) in viol:
+        if p != ctx.prop or bid in seen:
+            continue
+        seen.add(bid)
+        if lines is None:
+            lines = V.read_lines(trace)
+        i = line - 1
+        start = i
+        while start > 0 and lines[start].get("ev") != "DqConfig":
+            start -= 1
+        evs = lines[start:i + 1]
+        path = V.write_replay(p, {"kind": "deque"}, [{k: e[k] for k in ("op", "n", "e") if k in e} for e in evs[1:]],
+                              evs, len(evs) - 1, "deque:" + name)
+        ctx.violation(path, "list operation %d of behaviour %d rejected (%s)" % (len(evs) - 1, bid, p))
+    for (bid, line) in drift[:10]:
+        ctx.drift.append({"source": name, "behaviour": bid, "line": line})
+
+
 def sketch_verdict(ctx, name, trace, viol, drift):
     lines = None
     seen = set()
@@ -550,6 +644,8 @@ def run_property(prop, tier, seed):
     stage_v(ctx, plan.get("v", []))
     if prop in ("C14", "C08"):
         stage_sketch(ctx)
+    if prop in ("C08", "C11"):
+        stage_deque(ctx)
     stage_findings(ctx)
     return finish(ctx)
 
